@@ -873,7 +873,10 @@ class DestHandler:
                 # Finished PDU to be re-sent in the same FSM cycle. However, the call
                 # order in the FSM prevents this from happening, so we just call the state machine
                 # again manually.
-                if self._params.completion_disposition == CompletionDisposition.CANCELED:
+                if (
+                    self._params.completion_disposition == CompletionDisposition.CANCELED
+                    and self.states.step == TransactionStep.TRANSFER_COMPLETION
+                ):
                     return self.state_machine()
             self._params.positive_ack_params.ack_timer.reset()
             self._params.positive_ack_params.ack_counter += 1
